@@ -34,6 +34,9 @@ CHECKS = {
  "C18": ("runtime monitor: crypto/rand.Reader pass-through spy + exactly-once read/identifier matching, uniqueness set, bit-balance; second pass under the race detector",
          "exploration: 16 goroutines draw UUIDs and build messages while a spy on crypto/rand.Reader records every 16-byte read made inside uuid.NewV4; each identifier must be canonical v4/variant-1, unique, and its 122 free bits must equal exactly one recorded read",
          "kernel randomness quality is trusted", "4/C18"),
+ "C01": ("runtime monitor: attacker simulator (XSW/strip/resign/fuzz transformers over harness-signed messages) + signed-record membership oracle",
+         "exploration: the harness is IdP and attacker; thousands of attack documents per run are built from genuine signed responses by 30 wrapping/stripping/relocation/resigning/ID-collision transformers, a subtree fuzzer and a byte mutator, validated by the real library, and every accepted result is compared field-for-field with the records of what a trusted key actually signed",
+         "attack grammar finite; canonicaliser shared with the verifier", "4/C01"),
 }
 
 NOT_BUILT = "monitor not built yet in this session (planned in DESIGN.md section 4)"
